@@ -210,8 +210,90 @@ type zzC17World struct {
 	// marks maps a sentinel number to the real path of its file.
 	marks map[int]string
 	files []string
+	// planted are sentinel files that live in every server's data directory
+	// (paths relative to it); plantedDirs are their directories.  They are
+	// written by plant() whenever a server is created.  Opens inside a data
+	// directory are not watched (the server reads and writes its own cache
+	// there); such files are observed by their sentinel rules only.
+	planted     map[string]int
+	plantedDirs []string
+	// dataDir is the data directory of the server the next request goes to:
+	// what the abstract name "D" stands for (direction A).
+	dataDir string
 	// symbolic is true when the root is the abstract name "R" (direction A).
 	symbolic bool
+}
+
+// zzC17Planted is the set of base names of planted files under
+// <DataDir>/filters, which are not stored lists.
+var zzC17Planted = map[string]bool{}
+
+// plant writes the planted sentinel files into a data directory.
+func (w *zzC17World) plant(dataDir string) (err error) {
+	for _, d := range w.plantedDirs {
+		if err = os.MkdirAll(filepath.Join(dataDir, d), 0o755); err != nil {
+			return err
+		}
+	}
+
+	for rel, k := range w.planted {
+		err = os.WriteFile(filepath.Join(dataDir, rel), []byte("||"+zzC17Domain(k)+"^\n"), 0o644)
+		if err != nil {
+			return err
+		}
+	}
+
+	return nil
+}
+
+// addPlanted registers planted files (relative to a data directory); their
+// sentinel numbers follow those of the tree's files.
+func (w *zzC17World) addPlanted(dirs, files []string) {
+	w.planted = map[string]int{}
+	w.plantedDirs = dirs
+	sort.Strings(files)
+	for _, f := range files {
+		k := len(w.marks) + len(w.planted) + 1
+		w.planted[f] = k
+		if strings.HasPrefix(f, filterDir+"/") {
+			zzC17Planted[strings.TrimPrefix(f, filterDir+"/")] = true
+		}
+	}
+}
+
+// markPath returns the path, in the spec's vocabulary, of the file carrying
+// sentinel number k.
+func (w *zzC17World) markPath(k int) (p []string) {
+	if real, ok := w.marks[k]; ok {
+		return w.abstract(real)
+	}
+
+	for rel, n := range w.planted {
+		if n == k {
+			if w.symbolic {
+				return append([]string{"D"}, strings.Split(rel, "/")...)
+			}
+
+			return zzC17Segs(filepath.Join(w.dataDir, rel))
+		}
+	}
+
+	return []string{"?"}
+}
+
+// allMarks lists every sentinel number.
+func (w *zzC17World) allMarks() (ks []int) {
+	for k := range w.marks {
+		ks = append(ks, k)
+	}
+
+	for _, k := range w.planted {
+		ks = append(ks, k)
+	}
+
+	sort.Ints(ks)
+
+	return ks
 }
 
 func zzC17Domain(k int) (host string) { return fmt.Sprintf("zzc17s%dx.example", k) }
@@ -305,6 +387,8 @@ func (w *zzC17World) renderLoc(l zzC17Loc, rng *rand.Rand) (s string) {
 			} else {
 				segs[i] = w.rootSpelling(nil)
 			}
+		} else if w.symbolic && x == "D" {
+			segs[i] = strings.TrimPrefix(w.dataDir, "/")
 		} else {
 			segs[i] = x
 		}
@@ -587,7 +671,7 @@ func (s *zzC17Srv) leaks() (marks []int) {
 
 	seen := map[int]bool{}
 	for _, e := range ents {
-		if e.IsDir() || strings.HasSuffix(e.Name(), ".old") {
+		if e.IsDir() || strings.HasSuffix(e.Name(), ".old") || zzC17Planted[e.Name()] {
 			continue
 		}
 
@@ -615,7 +699,7 @@ func (s *zzC17Srv) leaks() (marks []int) {
 func (s *zzC17Srv) blocked(w *zzC17World) (marks []int) {
 	s.d.EnableFilters(false)
 	setts := &Settings{ProtectionEnabled: true, FilteringEnabled: true}
-	for k := range w.marks {
+	for _, k := range w.allMarks() {
 		res, err := s.d.CheckHostRules(zzC17Domain(k), dns.TypeA, setts)
 		if err == nil && res.IsFiltered {
 			marks = append(marks, k)
@@ -633,7 +717,7 @@ func (s *zzC17Srv) housekeeping(keep map[string]bool) {
 	dir := filepath.Join(s.dataDir, filterDir)
 	ents, _ := os.ReadDir(dir)
 	for _, e := range ents {
-		if !keep[e.Name()] {
+		if !keep[e.Name()] && !zzC17Planted[e.Name()] {
 			_ = os.Remove(filepath.Join(dir, e.Name()))
 		}
 	}
@@ -657,7 +741,7 @@ type zzC17Obs struct {
 func (w *zzC17World) marksToPaths(marks []int) (ps [][]string) {
 	ps = [][]string{}
 	for _, k := range marks {
-		ps = append(ps, w.abstract(w.marks[k]))
+		ps = append(ps, w.markPath(k))
 	}
 
 	return ps
@@ -694,6 +778,9 @@ func (e *zzC17Env) newDataDir() (d string) {
 	e.nData++
 	d = filepath.Join(e.work, fmt.Sprintf("data%d", e.nData))
 	_ = os.MkdirAll(d, 0o755)
+	if err := e.world.plant(d); err != nil {
+		panic(err)
+	}
 
 	return d
 }
@@ -788,6 +875,19 @@ func (e *zzC17Env) restore(s *zzC17Srv) (ok bool) {
 // run executes one entry scenario for a vector and returns the observations.
 func (e *zzC17Env) run(v *zzC17Vec, entry string, rng *rand.Rand, fresh bool) (obs []zzC17Obs, url string, err error) {
 	w := e.world
+	if entry == "add" || entry == "seturl" {
+		// The server first: the abstract name "D" in a location stands for
+		// the data directory of the server that gets the request.
+		var s0 *zzC17Srv
+		s0, err = e.sharedSrv(v.Cfg, fresh)
+		if err != nil {
+			return nil, "", err
+		}
+
+		fresh = false
+		w.dataDir = s0.dataDir
+	}
+
 	url = w.renderLoc(v.Loc, rng)
 	_, _ = w.w.drain()
 	white := rng != nil && rng.Intn(3) == 0
@@ -884,6 +984,10 @@ func (e *zzC17Env) run(v *zzC17Vec, entry string, rng *rand.Rand, fresh bool) (o
 func (e *zzC17Env) runInject(vs []*zzC17Vec, rngs []*rand.Rand) (obs [][]zzC17Obs, urls []string, err error) {
 	w := e.world
 	_, _ = w.w.drain()
+	dd := e.newDataDir()
+	defer func() { _ = os.RemoveAll(dd) }()
+
+	w.dataDir = dd
 	var block, allow []FilterYAML
 	for i, v := range vs {
 		url := w.renderLoc(v.Loc, rngs[i])
@@ -896,9 +1000,6 @@ func (e *zzC17Env) runInject(vs []*zzC17Vec, rngs []*rand.Rand) (obs [][]zzC17Ob
 			block = append(block, l)
 		}
 	}
-
-	dd := e.newDataDir()
-	defer func() { _ = os.RemoveAll(dd) }()
 
 	s, err := zzC17NewSrv(dd, e.patterns(vs[0].Cfg, rngs[0]), block, allow, e.http.client)
 	if err != nil {
@@ -1027,20 +1128,32 @@ func zzC17Setup(t *testing.T, tb *zzC17Tables) (e *zzC17Env) {
 		t.Fatal(err)
 	}
 
+	// Paths rooted at "R" are the scratch tree; paths rooted at "D" live in
+	// every server's data directory.
 	rel := func(p []string) (s string) { return strings.Join(p[1:], "/") }
-	dirs, files := []string{}, []string{}
+	dirs, files, ddirs, dfiles := []string{}, []string{}, []string{}, []string{}
 	for _, d := range tb.Dirs {
-		dirs = append(dirs, rel(d))
+		if d[0] == "D" {
+			ddirs = append(ddirs, rel(d))
+		} else {
+			dirs = append(dirs, rel(d))
+		}
 	}
 
 	for _, f := range tb.Files {
-		files = append(files, rel(f))
+		if f[0] == "D" {
+			dfiles = append(dfiles, rel(f))
+		} else {
+			files = append(files, rel(f))
+		}
 	}
 
 	world, err := zzC17BuildWorld(filepath.Join(work, "tree"), dirs, files, true)
 	if err != nil {
 		t.Fatalf("building tree: %v", err)
 	}
+
+	world.addPlanted(ddirs, dfiles)
 
 	err = os.Chdir(filepath.Join(world.root, rel(tb.Cwd)))
 	if err != nil {
@@ -1290,6 +1403,26 @@ func zzC17RandTree(rng *rand.Rand) (dirs, files [][]string) {
 		dirs = append(dirs, p)
 	}
 
+	// Siblings whose names merely begin like a directory's name.
+	for _, d := range append([][]string{}, dirs[1:]...) {
+		if rng.Intn(2) == 0 {
+			continue
+		}
+
+		sfx := []string{"x", ".b", "_old", ".bak", "2"}[rng.Intn(5)]
+		p := append(append([]string{}, d[:len(d)-1]...), d[len(d)-1]+sfx)
+		if used[zzC17Key(p)] {
+			continue
+		}
+
+		used[zzC17Key(p)] = true
+		if rng.Intn(4) == 0 {
+			dirs = append(dirs, p)
+		} else {
+			files = append(files, p)
+		}
+	}
+
 	nf := 4 + rng.Intn(7)
 	for i := 0; i < nf; i++ {
 		parent := dirs[rng.Intn(len(dirs))]
@@ -1432,10 +1565,20 @@ func zzC17Segs(real string) (segs []string) {
 // Half of the time the target is a node that some configured pattern matches
 // (path/filepath.Match is used for this CHOICE of inputs only, never for the
 // verdict), so that permitted opens are frequent enough to see.
-func zzC17RandLoc(rng *rand.Rand, w *zzC17World, nodes [][]string, cwd []string, pats []string) (l zzC17Loc) {
+func zzC17RandLoc(
+	rng *rand.Rand,
+	w *zzC17World,
+	nodes [][]string,
+	cwd []string,
+	pats []string,
+	extra [][]string,
+) (l zzC17Loc) {
 	rootSegs := zzC17Segs(w.root)
 	target := append(append([]string{}, rootSegs...), nodes[rng.Intn(len(nodes))]...)
-	if rng.Intn(2) == 0 {
+	if len(extra) > 0 && rng.Intn(8) == 0 {
+		// A path outside the tree (inside the server's own data directory).
+		target = append([]string{}, extra[rng.Intn(len(extra))]...)
+	} else if rng.Intn(2) == 0 {
 		for try := 0; try < 12; try++ {
 			hit := false
 			for _, p := range pats {
@@ -1451,7 +1594,7 @@ func zzC17RandLoc(rng *rand.Rand, w *zzC17World, nodes [][]string, cwd []string,
 			target = append(append([]string{}, rootSegs...), nodes[rng.Intn(len(nodes))]...)
 		}
 	}
-	if rng.Intn(10) < 3 {
+	if rng.Intn(10) < 3 && len(target) > 0 {
 		if rng.Intn(2) == 0 && len(target) > len(rootSegs) {
 			target[len(target)-1] = zzC17RandName(rng)
 		} else {
@@ -1656,7 +1799,7 @@ func TestZZVerifC17Trace(t *testing.T) {
 	}
 
 	rng := rand.New(rand.NewSource(zzSeed()))
-	epochs, stepsPer := 120, 25
+	epochs, stepsPer := 100, 25
 	if zzC17Tier() == "thorough" {
 		epochs = 900
 	}
@@ -1702,8 +1845,22 @@ func TestZZVerifC17Trace(t *testing.T) {
 			pats = append(pats, world.renderGlob(g, rng))
 		}
 
+		// The server's own data directory holds sentinel files as well: it is
+		// not special, nothing in it may be read without a matching pattern.
 		dataDir := filepath.Join(work, "tb", "d"+strconv.Itoa(ep))
 		_ = os.MkdirAll(dataDir, 0o755)
+		plantedDirs, plantedFiles := []string{filterDir}, []string{filterDir + "/x.txt", filterDir + "/77.txt", "x.txt"}
+		world.addPlanted(plantedDirs, plantedFiles)
+		world.dataDir = dataDir
+		if err = world.plant(dataDir); err != nil {
+			t.Fatalf("planting: %v", err)
+		}
+
+		extra := [][]string{zzC17Segs(dataDir), zzC17Segs(filepath.Join(dataDir, filterDir))}
+		for _, f := range plantedFiles {
+			extra = append(extra, zzC17Segs(filepath.Join(dataDir, f)))
+		}
+
 		inst, serr := zzC17NewInst(dataDir, pats, h.client)
 		if serr != nil {
 			t.Fatalf("epoch %d: patterns %q: %v", ep, pats, serr)
@@ -1716,6 +1873,7 @@ func TestZZVerifC17Trace(t *testing.T) {
 		inst.scribblePats = scribble
 
 		nameSets := [][]string{rootSegs, baseLoc.Segs}
+		nameSets = append(nameSets, extra...)
 		for _, p := range nodes {
 			nameSets = append(nameSets, p)
 		}
@@ -1746,7 +1904,7 @@ func TestZZVerifC17Trace(t *testing.T) {
 
 			st := step{act: act}
 			if act != "refresh" && act != "remove" && act != "scribble" {
-				st.loc = zzC17RandLoc(rng, world, nodes, cwd, pats)
+				st.loc = zzC17RandLoc(rng, world, nodes, cwd, pats, extra)
 				nameSets = append(nameSets, st.loc.Segs)
 			}
 
@@ -1755,7 +1913,8 @@ func TestZZVerifC17Trace(t *testing.T) {
 
 		out.put(map[string]any{"act": "reset", "pats": globs, "cwd": cwd, "names": zzC17Names(nameSets...),
 			"concrete": map[string]any{"root": root, "cwd": "/" + zzC17Key(cwd), "patterns": pats,
-				"dirs": rel(dirs), "files": rel(files), "scribble": scribble}})
+				"dirs": rel(dirs), "files": rel(files), "scribble": scribble,
+				"data_dir": dataDir, "planted_dirs": plantedDirs, "planted_files": plantedFiles}})
 
 		byURL := map[string]zzC17Loc{}
 		prevLeaks := map[int]bool{}
@@ -1862,13 +2021,16 @@ func TestZZVerifC17Redo(t *testing.T) {
 	defer out.close()
 
 	req := struct {
-		Root     string    `json:"root"`
-		Cwd      string    `json:"cwd"`
-		Patterns []string  `json:"patterns"`
-		Dirs     []string  `json:"dirs"`
-		Files    []string  `json:"files"`
-		Scribble []string  `json:"scribble"`
-		Ops      []zzC17Op `json:"ops"`
+		Root         string    `json:"root"`
+		Cwd          string    `json:"cwd"`
+		Patterns     []string  `json:"patterns"`
+		Dirs         []string  `json:"dirs"`
+		Files        []string  `json:"files"`
+		Scribble     []string  `json:"scribble"`
+		DataDir      string    `json:"data_dir"`
+		PlantedDirs  []string  `json:"planted_dirs"`
+		PlantedFiles []string  `json:"planted_files"`
+		Ops          []zzC17Op `json:"ops"`
 	}{}
 	b, err := os.ReadFile(zzGetenv("VERIF_C17_REDO"))
 	if err != nil {
@@ -1894,7 +2056,23 @@ func TestZZVerifC17Redo(t *testing.T) {
 	h := zzC17NewHTTP()
 	defer h.srv.Close()
 
-	inst, err := zzC17NewInst(t.TempDir(), req.Patterns, h.client)
+	// The same data directory path as in the logged history: locations may
+	// point into it.
+	dataDir := req.DataDir
+	if dataDir == "" {
+		dataDir = t.TempDir()
+	} else {
+		_ = os.RemoveAll(dataDir)
+		_ = os.MkdirAll(dataDir, 0o755)
+	}
+
+	world.addPlanted(req.PlantedDirs, req.PlantedFiles)
+	world.dataDir = dataDir
+	if err = world.plant(dataDir); err != nil {
+		t.Fatalf("planting: %v", err)
+	}
+
+	inst, err := zzC17NewInst(dataDir, req.Patterns, h.client)
 	if err != nil {
 		t.Fatal(err)
 	}
@@ -1924,7 +2102,7 @@ func TestZZVerifC17Redo(t *testing.T) {
 	fresh, _ := zzC17Delta(inst.srv, prev)
 	stored := []string{}
 	for _, k := range fresh {
-		stored = append(stored, world.marks[k])
+		stored = append(stored, "/"+zzC17Key(world.markPath(k)))
 	}
 
 	out.put(map[string]any{"kind": "redo", "status": status, "opened": real, "stored": stored, "ops": len(req.Ops)})
@@ -1967,6 +2145,7 @@ func (e *zzC17Env) runWalk(wk *zzC17WalkIn, upto int) (obs []zzC17StepObs, at in
 	dd := e.newDataDir()
 	defer func() { _ = os.RemoveAll(dd) }()
 
+	w.dataDir = dd
 	inst, err := zzC17NewInst(dd, e.patterns(wk.Cfg, rng), e.http.client)
 	if err != nil {
 		return nil, -1, "", err
